@@ -129,7 +129,7 @@ EXPORT char *_stpcpy_s_chk(char *restrict dest, rsize_t dmax,
         }
         BND_CHK_PTR_BOUNDS(dest, dmax);
     } else {
-        if (unlikely(dmax > destbos)) {
+        if (unlikely(dmax > destbos || dmax > RSIZE_MAX_STR)) {
             if (dmax > RSIZE_MAX_STR) {
                 handle_error(dest, destbos, "stpcpy_s: dmax exceeds max",
                              ESLEMAX);
